@@ -246,6 +246,12 @@ class Wsdl11(XmlSchema):
 
         pref_tns = self.interface.get_namespace_prefix(self.interface.tns)
 
+        for wsdl_port in service:
+            if wsdl_port.get('name') == port_name:
+                # services that share a service name (a service class and
+                # its subclasses do) share its ports as well.
+                return
+
         wsdl_port = SubElement(service, WSDL11("port"))
         wsdl_port.set('name', port_name)
         wsdl_port.set('binding', '%s:%s' % (pref_tns, binding_name))
